@@ -70,7 +70,7 @@ def model_bytes(v):
 def gen_history(rng, g):
     """A pool (one generated program) and a list of build requests over it."""
     ins, outs = g.program()
-    pool_out = list(outs.values())
+    pool_out = list(outs.values()) + [v for v in getattr(g, 'last_pool', []) if isinstance(v.type, B.Tensor) and v.type.shape is not None][:12]
     steps = []
     for _ in range(rng.randint(3, 7)):
         k = rng.random()
